@@ -89,5 +89,53 @@ PROPS['C07'] = dict(
              '_get_profile_string modelled as a pure text function of the profile'],
     assumptions=['optimality of the seven secondary statistics is covered by the bounded stand-in only (labelled bounded)',
                  'ModelWF precondition from the reader (C10)'])
+LP = 'lp_solver:LP_Solver.'
+T_LP = ['T1 PuLP expression algebra: LpVariable, LpAffineExpression, + - * by ints, +=/-=, lpSum and the comparison operators build the constraint with the evident value under any valuation',
+        'T2 prob += adds a constraint and never removes one; prob.objective = e replaces only the objective (distinct constraint names: checked by the bounded runs only)',
+        'T3 PuLP/CBC solve: status Optimal comes with an integral valuation satisfying every constraint and optimal for the objective; Infeasible iff no valuation exists; variable identity = its name (datatype Var)',
+        'T11 chain.from_iterable concatenates (assumed lemma FLAT/sum: the sum over the concatenation is the sum of the row sums)']
+CRIT_FUNCS = [LP + f for f in ('perform_optimisation', 'get_all_pairs_vars', 'get_all_vars_at_rank', 'optimisation_maxsize', 'optimisation_minsize',
+              'optimisation_generous', 'optimisation_greedy', 'optimisation_mincost', 'optimisation_minsqcost', 'optimisation_mincostlsb',
+              'optimisation_loadmaxbal', 'optimisation_loadsumbal', 'loadbalancing_constraints')]
+EXACT = ('each function is verified against an EXACT characterisation of what it adds to the integer program, under an arbitrary ghost valuation nu of the LP '
+         'variables: feas() == (old(feas()) and <the stated constraints>), which is soundness and completeness of the constraint set at once, for every instance size; ')
+PROPS['C01'] = dict(
+    title='Reported matching is always a valid matching of the input instance',
+    functions=[LP + 'upper_lower_constraints', LP + 'run_optimisations', LP + 'run'],
+    lemmas=[], level='other',
+    level_text=EXACT + 'upper_lower_constraints adds exactly: every row sum <= 1, every project list sum within [lq, uq] (or the closure-gated pair), every lecturer list sum within [lq, uq]; run / run_optimisations never remove a constraint (constraints-only-grow).  NOT proved deductively (bounded stand-in): that project_lists / lecturer_lists hold exactly the pairs of that project / lecturer (ModelWF sum identity from set_project_lists), variable creation in pulp_setup, and reading the matching back in _get_pair_assignments / get_results',
+    harness=True, bound='<= 4 students x <= 3 projects x <= 3 lecturers, 0-3 random criteria, real CBC',
+    budget={'quick': 25, 'thorough': 300}, trusted=T_LP,
+    assumptions=['ModelWF list/sum agreement and the read-back of the matching are covered by the bounded stand-in only'])
+PROPS['C02'] = dict(
+    title='Solver reports Optimal exactly when a feasible matching exists; never errors',
+    functions=[LP + 'run', LP + 'run_optimisations'] + CRIT_FUNCS,
+    lemmas=['SUM/ext'], level='other',
+    level_text=EXACT + 'run: never raises, solves at least once, returns the status of the last solve, only the last solve may have failed; every criterion creates a variable with a fresh literal name (duplicate names raise in PuLP).  NOT proved deductively (bounded stand-in): that the upper bound given to each objective variable admits the witness value of every feasible matching (witness-in-bounds), i.e. that criteria never turn a feasible instance infeasible',
+    harness=True, bound='<= 5 students x <= 3 projects x <= 3 lecturers incl. objective-bound stress instances, 0-3 random criteria, real CBC',
+    budget={'quick': 30, 'thorough': 400}, trusted=T_LP,
+    assumptions=['witness-in-bounds of the objective variables: bounded stand-in only', 'FLAT/sum assumed (T11)'])
+PROPS['C03'] = dict(
+    title='Each optimisation criterion optimises the quantity it is documented to optimise',
+    functions=CRIT_FUNCS, lemmas=['SUM/ext'], level='other',
+    level_text=EXACT + 'per criterion: LINK (objective variable == the documented measure written as sums over the code\'s own lists, with the documented defaults for cut-off and multipliers), FRESH name, FREEZE (perform_optimisation: objective = +-variable, one solve, then variable >= / <= the achieved value), generous / greedy visit exactly ranks R..cut / 1..min(cut,R).  The step from LINK+FREEZE to "the reported matching attains the optimum" uses T3 (CBC returns an optimum) and the set-level meta-lemma freeze_opt, which is argued in DESIGN.md section 6 but not machine-checked here',
+    harness=True, bound='<= 4 students x <= 3 projects x <= 3 lecturers, one random criterion with random extras, real CBC',
+    budget={'quick': 25, 'thorough': 300}, trusted=T_LP,
+    assumptions=['freeze_opt meta-lemma (set-level) not machine-checked', 'FLAT/sum assumed (T11)', 'measures are stated over project_lists / lecturer_lists / rank_lists (ModelWF agreement: bounded)'])
+PROPS['C04'] = dict(
+    title='Several criteria compose lexicographically in the user-given order',
+    functions=[LP + 'run_optimisations', LP + 'perform_optimisation', (OPP + 'parse', {'argparse_py': True}), OPP + '_get_ordered_optimisations'],
+    lemmas=['C16/occupy-step', 'C16/chain', 'C16/all-first', 'C16/pigeonhole'], level='other',
+    level_text='run_optimisations dispatches the criteria in list order (loop invariant over the symbolic list), each by its contract, stops after the first solve that is not Optimal, and never removes a constraint; perform_optimisation freezes each achieved value; Options_parser.parse puts every requested criterion at index = number of requested criteria with a smaller position (C16).  The lexicographic-optimum conclusion (lex_chain) is a set-level argument over these contracts, not machine-checked',
+    harness=True, bound='<= 4 students x <= 3 projects x <= 3 lecturers, 2-3 random criteria, real CBC',
+    budget={'quick': 25, 'thorough': 300}, trusted=T_LP + ['T9 argparse'],
+    assumptions=['lex_chain meta-lemma not machine-checked'])
+PROPS['C05'] = dict(
+    title='With stability requested the solver searches exactly the stable matchings',
+    functions=[LP + 'stability_constraints'], lemmas=['C05/prefix-filter'], level='other',
+    level_text=EXACT + 'stability_constraints adds, for every acceptable pair p of every student, exactly: -d_k*alpha_p + (sum over l_k\'s list of the variables of other students ranked at least as well as s_i) >= 0, the same with -c_j*beta_p restricted to p_j, and (1 - sum of s_i\'s variables at rank <= rank(p)) - alpha_p - beta_p <= 0 (while-loop prefix = rank filter by lemma C05/prefix-filter on sorted rows).  NOT proved deductively (bounded stand-in): the equivalence "exists alpha,beta in {0,1} satisfying the three constraints <=> p does not block" (needs the sum-squeeze lemmas)',
+    harness=True, bound='<= 4 students x <= 3 projects x <= 3 lecturers, two-sided, -stab with 0-1 criteria, real CBC; all stable matchings enumerated',
+    budget={'quick': 25, 'thorough': 300}, trusted=T_LP,
+    assumptions=['semantic equivalence of the alpha/beta/gamma system with the blocking-pair definition: bounded stand-in only'])
 NOT_APPLICABLE = {}
 NOTES = 'see DESIGN.md; ./check Cxx --tier quick|thorough; exit 0 held / 1 VIOLATION / 2 undecided / 3 checker error'
